@@ -97,7 +97,9 @@ def validate_e2(work, seed=0, spec_entries=None):
     nat = os.path.join(work, 'e2-oracle-native.txt')
     tool = os.path.join(VERIF, 'mirsym', 'e2_validate.py')
     crate = 'spec' if spec_entries else 'data'
-    if spec_entries:
+    if spec_entries == 'names':
+        p = subprocess.run(['python3-vt', tool, 'gennames', cases, str(seed)], capture_output=True, text=True, env=dict(os.environ, VERIF_REPO=REPO))
+    elif spec_entries:
         p = subprocess.run(['python3-vt', tool, 'genspec', cases, str(seed), json.dumps(spec_entries)], capture_output=True, text=True)
     else:
         p = subprocess.run(['python3-vt', tool, 'gen', cases, str(seed)], capture_output=True, text=True)
@@ -111,13 +113,19 @@ def validate_e2(work, seed=0, spec_entries=None):
     cmd = ['cargo', 'test', '--offline', '-p', CRATES[crate], '--lib', '--target-dir', os.path.join(work, 'target-native'),
            'verif_oracle', '--', '--nocapture', '--test-threads', '1']
     try:
-        q = subprocess.run(cmd, cwd=REPO, env=e, capture_output=True, text=True, timeout=1200)
+        b = subprocess.run(cmd[:cmd.index('verif_oracle')] + ['--no-run'], cwd=REPO, env=e, capture_output=True, text=True, timeout=1200)
+        q = subprocess.run(cmd, cwd=REPO, env=e, capture_output=True, text=True, timeout=240)
     except subprocess.TimeoutExpired:
-        return dict(ok=False, error='native oracle timed out')
+        subprocess.run(['pkill', '-9', '-f', os.path.join(work, 'target-native', 'debug/deps/autosar_data')], capture_output=True)
+        return dict(ok=False, error='native oracle timed out (the real functions do not terminate on one of the validation inputs)')
     if q.returncode != 0 or not os.path.exists(nat):
         return dict(ok=False, error='native oracle failed: ' + (q.stdout + q.stderr)[-1500:])
-    rcmd = (['python3-vt', tool, 'runspec', os.path.join(work, 'mir'), cases, nat, json.dumps(spec_entries)] if spec_entries
-            else ['python3-vt', tool, 'run', os.path.join(work, 'mir'), cases, nat])
+    if spec_entries == 'names':
+        rcmd = ['python3-vt', tool, 'runnames', os.path.join(work, 'mir'), cases, nat]
+    elif spec_entries:
+        rcmd = ['python3-vt', tool, 'runspec', os.path.join(work, 'mir'), cases, nat, json.dumps(spec_entries)]
+    else:
+        rcmd = ['python3-vt', tool, 'run', os.path.join(work, 'mir'), cases, nat]
     r = subprocess.run(rcmd, capture_output=True, text=True, timeout=1200, env=dict(os.environ, VERIF_REPO=REPO))
     try:
         return json.loads(r.stdout.strip().split('\n')[-1])
